@@ -98,13 +98,12 @@ def shapes(p: L.Prog) -> dict[str, set]:
         for f in declared:
             if f not in assigned:
                 out.setdefault("declared-unassigned-attribute", set()).add((f"K{c}", f"a{f}"))
-        if cd.base is not None:
-            inherited = {}
-            for k in reversed(p.classes[cd.base].mro):
-                inherited.update(dict(p.classes[k].attrs))
-            for f, t in cd.attrs:
-                if f in inherited and inherited[f] != t:
-                    out.setdefault("attribute-redeclared-with-different-type", set()).add((f"K{c}", f"a{f}"))
+        inherited = {}
+        for k in reversed(cd.mro[1:]):
+            inherited.update(dict(p.classes[k].attrs))
+        for f, t in cd.attrs:
+            if f in inherited and inherited[f] != t:
+                out.setdefault("attribute-redeclared-with-different-type", set()).add((f"K{c}", f"a{f}"))
     return out
 
 
@@ -205,7 +204,8 @@ def report_failures(ctx: Ctx, case: Case, model: dict | None, fails: list[dict])
     if case.kind.startswith("replay:") and case.prog is None:
         observed["program"] = case.kind.split(":", 1)[1]
     elif model is not None and model["tc"].startswith("hole"):
-        observed["shape"] = {"hole 1": "union-receiver-attribute-assignment", "hole 2": "loop-pass-cap"}.get(model["tc"], model["tc"])
+        observed["shape"] = {"hole 1": "union-receiver-attribute-assignment", "hole 2": "loop-pass-cap",
+                             "hole 3": "union-isinstance-common-subclass"}.get(model["tc"], model["tc"])
     elif "declared-unassigned-attribute" in sh and f["kind"] == "AttributeError":
         m = re.match(r"'(K\d+)' object has no attribute '(a\d+)'", f.get("msg", ""))
         observed["shape"] = "declared-unassigned-attribute"
@@ -342,7 +342,7 @@ def perturb_stream(ctx: Ctx, base: list[Case], n: int) -> None:
             continue
         q, kind = r
         ctx.dist("perturbation", kind)
-        cases.append(Case(f"q{len(cases)}", q, c.calls, "perturbed", kind))
+        cases.append(Case(f"q{len(cases)}", q, list(c.calls) + list(getattr(q, "extra_calls", [])), "perturbed", kind))
     for i in range(0, len(cases), BATCH):
         correspond(ctx, cases[i:i + BATCH], "perturbed")
 
@@ -359,28 +359,28 @@ def known_programs() -> list[Case]:
     """One program per known unsound shape; the four inside the model are the witnesses of Props/C01.lean."""
     out = []
     # F19 declared, never assigned
-    p = L.Prog([L.Cls(None, [(0, I_)], [], [], [])],
+    p = L.Prog([L.Cls([], [(0, I_)], [], [], [])],
                [L.Func([], [], I_, ("ret", ("attr", ("new", 0, []), 0)))])
     p.fill_mro()
     out.append(Case("kF19", p, [(0, [])], "replay:F19"))
     # F18 covariant redeclaration of a mutable attribute
-    p = L.Prog([L.Cls(None, [(0, O_)], [O_], [(0, ("var", 0))], []),
-                L.Cls(0, [(0, I_)], [I_], [(0, ("var", 0))], [])],
+    p = L.Prog([L.Cls([], [(0, O_)], [O_], [(0, ("var", 0))], []),
+                L.Cls([0], [(0, I_)], [I_], [(0, ("var", 0))], [])],
                [L.Func([K(0)], [], N_, ("setAttr", ("var", 0), 0, ("strLit", [115]))),
                 L.Func([], [K(1)], I_, L.seq([("decl", 0, ("new", 1, [("intLit", 1)])), ("expr", ("callF", 0, [("var", 0)])),
                                                ("ret", ("add", ("attr", ("var", 0), 0), ("intLit", 1)))]))])
     p.fill_mro()
     out.append(Case("kF18", p, [(1, [])], "replay:F18"))
     # assignment through a union receiver
-    p = L.Prog([L.Cls(None, [(0, I_)], [I_], [(0, ("var", 0))], []),
-                L.Cls(None, [(0, S_)], [S_], [(0, ("var", 0))], [])],
+    p = L.Prog([L.Cls([], [(0, I_)], [I_], [(0, ("var", 0))], []),
+                L.Cls([], [(0, S_)], [S_], [(0, ("var", 0))], [])],
                [L.Func([(L.C(0), L.C(1))], [], N_, ("setAttr", ("var", 0), 0, ("strLit", [115]))),
                 L.Func([], [K(0)], I_, L.seq([("decl", 0, ("new", 0, [("intLit", 1)])), ("expr", ("callF", 0, [("var", 0)])),
                                                ("ret", ("add", ("attr", ("var", 0), 0), ("intLit", 1)))]))])
     p.fill_mro()
     out.append(Case("kUnionSet", p, [(1, [])], "replay:union-receiver-attribute-assignment"))
     # the 4-pass cap of accept_loop
-    classes = [L.Cls(None if c == 0 else c - 1, [], [], [], []) for c in range(6)]
+    classes = [L.Cls([] if c == 0 else [c - 1], [], [], [], []) for c in range(6)]
     chain = ("expr", ("probe", 1, ("add", ("intLit", 1), ("strLit", [115]))))
     for c in range(1, 6):
         chain = ("ite", ("isinst", 1, c), ("assign", 1, ("new", c - 1, [])), chain, "elif")
@@ -397,18 +397,19 @@ def known_programs() -> list[Case]:
         "class A:\n    def __init__(self) -> None:\n        pass\n"
         "class B(A):\n    def __init__(self, n: int) -> None:\n        self.n = n\n"
         "def make(c: type[A]) -> A:\n    return c()\ndef t() -> A:\n    return make(B)\n"), pycalls=["t()"]))
-    out.append(Case("kMI", None, [], "replay:F-C01-3-union-isinstance-multiple-inheritance", src=(
-        "from typing import Union\n"
-        "class A:\n    def __init__(self) -> None:\n        pass\n"
-        "class C:\n    def __init__(self) -> None:\n        pass\n"
-        "class C2(C):\n    def only_c2(self) -> int:\n        return 1\n"
-        "class AC(A, C):\n    pass\n"
-        "def f(x: Union[A, C2]) -> int:\n    if isinstance(x, C):\n        return x.only_c2()\n    return 0\n"
-        "def t() -> int:\n    return f(AC())\n"), pycalls=["t()"]))
+    # isinstance on a union drops an item that shares a subclass with the tested class (multiple inheritance)
+    m0 = L.Func([], [], I_, ("ret", ("intLit", 1)))
+    p = L.Prog([L.Cls([], [], [], [], []), L.Cls([], [], [], [], []), L.Cls([1], [], [], [], [(0, m0)]), L.Cls([0, 1], [], [], [], [])],
+               [L.Func([(L.C(0), L.C(2))], [], I_, L.seq([("ite", ("isinst", 0, 1), ("ret", ("callM", ("var", 0), 0, [])), ("pass",)),
+                                                            ("ret", ("intLit", 0))])),
+                L.Func([], [], I_, ("ret", ("callF", 0, [("new", 3, [])])))])
+    p.fill_mro()
+    out.append(Case("kMI", p, [(1, [])], "replay:union-isinstance-common-subclass"))
     return out
 
 
-EXPECTED_MODEL = {"kF19": (False, "ok"), "kF18": (False, "ok"), "kUnionSet": (True, "hole 1"), "kLoopCap": (True, "hole 2")}
+EXPECTED_MODEL = {"kF19": (False, "ok"), "kF18": (False, "ok"), "kUnionSet": (True, "hole 1"), "kLoopCap": (True, "hole 2"),
+                  "kMI": (True, "hole 3")}
 
 
 def known_stream(ctx: Ctx) -> None:
